@@ -12,6 +12,7 @@ import PrologVerif.Proofs.DCGItems
 import PrologVerif.Proofs.DCGSemCall
 import PrologVerif.Proofs.DCGSem2Top
 import PrologVerif.Proofs.DCGSem2Phrase
+import PrologVerif.Proofs.DCGSem2XTop
 namespace PrologVerif.C17
 open PrologVerif PrologVerif.DCG PrologVerif.Grammar
 
@@ -492,6 +493,39 @@ theorem C17_translation_sound_complete_fresh_remainder (cfg : Cfg) (gr : Grammar
     rw [hk]
   exact phrase_agrees cfg h.iso gr (fun r hr => Rule.okC_good (List.all_eq_true.1 h.rules r hr)) q l b hq h.body v
     (by omega) (by omega) n A D hA' hD'
+
+/-- **Stage D: the open statement for ANY third argument `r`** (recognition `r = []`, a partial
+    list, a variable shared with the input or the body, …), in the setting of stage C with
+    arbitrary closures: exactly the conclusion of `C17_translation_sound_complete_statement`
+    (without needing its hypothesis that the answers can be printed).
+
+    The translation hands `r` down to the LAST goal of every branch, where it is unified as soon
+    as the remainder is known, while the specification parses first and unifies every remainder
+    with `r` afterwards.  The proof moves the specification's final unification inside the
+    combinators of the denotation (`post`, Proofs/DCGSem2Post.lean: towards the last part of a
+    sequence, into both branches of an alternation, into the branches of an if-then-else, into the
+    rules of a non-terminal) and runs the bisimulation with the remainder argument an arbitrary
+    term (Proofs/DCGSem2X*.lean); the cut always precedes the unification with `r`, which is why
+    the two orders give the same answers.  With push-back the clause ends in `S = [pb… | S1]`
+    while phrase/3 unifies `[pb… | rem]` with `r`: the same unification with its arguments in
+    the opposite order (`unify_simF`). -/
+theorem C17_translation_sound_complete_D (cfg : Cfg) (gr : Grammar) (q l r : Term) (b : Body) (n : Nat)
+    (hq : Body.ofTerm q = .ok b) (h : SettingC false cfg gr b) :
+    let k := max (boundT q) (max (boundT l) (boundT r))
+    let st0 : St := { σ := [], next := k }
+    let g := b.tr l r k
+    let tmpl := Term.mk "t" [q, l, r]
+    ∀ A D, solve cfg.uf (programOf gr) n g.1 { st0 with next := g.2 } = .ok A →
+      Grammar.phrase cfg gr n b st0 l r = .ok D →
+      projected cfg.uf tmpl A.answers = projected cfg.uf tmpl D := by
+  intro k st0 g tmpl A D hA hD
+  have hg2 : g.2 = k + b.nhid := tr_next b l r k
+  have hA' : solve cfg.uf (programOf gr) n (b.tr l r k).1 ⟨[], k + b.nhid⟩ = .ok A := by
+    rw [← hA]
+    show _ = solve cfg.uf (programOf gr) n (b.tr l r k).1 ⟨[], g.2⟩
+    rw [hg2]
+  exact phrase_agreesX cfg h.iso gr (fun r hr => Rule.okC_good (List.all_eq_true.1 h.rules r hr)) q l r b hq h.body k
+    (by omega) (by omega) (by omega) n A D hA' hD
 
 /-! non-vacuity: the settings hold of concrete grammars, and both sides do succeed there (the
     kernel evaluates them) -/
